@@ -419,6 +419,15 @@ def run(ck):
                       "handler refusing the n-th event.  cf cases: histories of schema/loaded/home/file/load/set/get/dump over "
                       "four schemas (absolute, relative with base_lookup, dynamic set_key, relative with NULL base) with typed "
                       "values at boundaries.  A case counts as non-trivial when it is distinct and contains a parse/load/set.")
+    if not ck.quick():
+        ck.leanchecker(PROP_MODULES + ["UsualProofs.C18." + m for m in
+                                       ("View", "Ref", "LineSpec", "Scan", "NumP", "ConfigP")])
+    ck.cov["partial"] = ["set_get_roundtrip_time_partial: the round trip of time values under the concrete binary64 "
+                         "model (strtodC/fmtG) is kernel-evaluated on a finite list of values; the statement for all "
+                         "values with <= 6 significant digits needs floating-point error analysis (full statement kept "
+                         "in a comment next to it); with strtod/%g as parameters it is proved in general "
+                         "(set_get_roundtrip_time)",
+                         "cf_set_filename: $HOME / getpwnam are parameters (Env); only the plain and `~/` cases are theorems"]
     rng = vf.SplitMix(ck.seed)
     nontriv = lambda c: any(l.split()[0] in ("parse", "load", "set") for l in c)
     hist = {}
@@ -433,7 +442,7 @@ def run(ck):
 
     go(vf.corpus_cases(PID), "corpus")
     mult = 4 if not ck.proof_ok else 1
-    n = ck.scale(12000, 400000) * mult
+    n = ck.scale(12000, 300000) * mult
     pc = [parse_case(rng) for _ in range(n)]
     go(pc, "parse")
     cc = [cf_case(rng) for _ in range(n // 3)]
